@@ -250,4 +250,10 @@ theorem implementation_layout_never_skips :
     (∀ e ∈ Gs.Gen.layoutImplementation, e.name ≠ "configure") := by
   decide
 
+/-- the contributed stratoscale templates own their configure file: the option plumbing must hand them a layout in which NO
+    entry is skipped when it exists (regenerated fact: `--template stratoscale` through createSwagger) -/
+theorem stratoscale_layout_never_skips :
+    (∀ e ∈ Gs.Gen.layoutStratoscale, e.skip = false) ∧ (∃ e ∈ Gs.Gen.layoutStratoscale, e.name = "configure") := by
+  decide
+
 end Gs.Props.C11
